@@ -151,7 +151,7 @@ func (o *Object) Write(rootGoitPath string) error {
 	if _, err := os.Stat(filePath); err == nil {
 		return nil
 	}
-	if f, err := os.Stat(dirPath); os.IsNotExist(err) || !f.IsDir() {
+	if f, err := os.Stat(dirPath); err != nil || !f.IsDir() {
 		if err := os.Mkdir(dirPath, os.ModePerm); err != nil {
 			return fmt.Errorf("%w: %s", ErrIOHandling, dirPath)
 		}
